@@ -10,8 +10,9 @@ Ltac Zify.zify_post_hook ::= Z.div_mod_to_equations.
 
 (* regimes that run tax.NormalizeIdentity(id) and nothing else *)
 Definition simple_regimes : list bytes :=
-  map bs ["AE"; "AT"; "BE"; "CA"; "CO"; "DE"; "ES"; "IT"; "NL"; "PL"; "PT"]%string.
-(* regimes with alternative country codes: (country given, country after, alternative prefixes) *)
+  map bs ["AE"; "AT"; "BE"; "BR"; "CA"; "CO"; "DE"; "ES"; "IT"; "NL"; "PL"; "PT"]%string.
+(* regimes with alternative country codes: (country given, country after normalisation - whose
+   prefix is trimmed first -, alternative prefixes) *)
 Definition multi_regimes : list (bytes * (bytes * list bytes)) :=
   [(bs "GB", (bs "GB", [bs "XI"; bs "XU"])); (bs "XI", (bs "XI", [bs "XI"; bs "XU"]));
    (bs "XU", (bs "XU", [bs "XI"; bs "XU"])); (bs "EL", (bs "EL", [bs "GR"]));
@@ -24,7 +25,7 @@ Proof.
 Qed.
 
 Lemma normalize_multi cc cc' alts raw :
-  In (cc, (cc', alts)) multi_regimes -> normalize cc raw = (cc', norm_generic cc alts raw).
+  In (cc, (cc', alts)) multi_regimes -> normalize cc raw = (cc', norm_generic cc' alts raw).
 Proof.
   intro H. cbn in H.
   repeat (destruct H as [E|H]; [injection E as <- <- <-; reflexivity|]). contradiction.
@@ -49,9 +50,9 @@ Proof.
   apply andb_prop in E as [E1 E2]. apply Nat.eqb_eq in E1. auto.
 Qed.
 
-(* BR and US: no normalisation at all (the code is returned as written) *)
-Lemma normalize_BR_US raw : normalize (bs "BR") raw = (bs "BR", raw) /\ normalize (bs "US") raw = (bs "US", raw).
-Proof. split; reflexivity. Qed.
+(* US: no normalisation at all (the code is returned as written) *)
+Lemma normalize_US raw : normalize (bs "US") raw = (bs "US", raw).
+Proof. reflexivity. Qed.
 
 (* ---------------- idempotence ---------------- *)
 Theorem normalize_simple_idempotent_iff cc raw :
@@ -71,20 +72,12 @@ Proof.
 Qed.
 
 Theorem normalize_multi_idempotent_iff cc cc' alts raw :
-  In (cc, (cc', alts)) multi_regimes -> cc' = cc ->
+  In (cc, (cc', alts)) multi_regimes ->
   (snd (normalize cc (snd (normalize cc raw))) = snd (normalize cc raw)
-   <-> stable (cc :: alts) (snd (normalize cc raw))).
+   <-> stable (cc' :: alts) (snd (normalize cc raw))).
 Proof.
-  intros H ->. rewrite !(normalize_multi _ _ _ _ H). cbn [snd]. apply norm_generic_idempotent_iff.
+  intros H. rewrite !(normalize_multi _ _ _ _ H). cbn [snd]. apply norm_generic_idempotent_iff.
 Qed.
-
-(* GR: the prefix of the country as given is trimmed before the country becomes EL, so with
-   country GR a leading EL is NOT removed (and normalisation is then not idempotent) *)
-Theorem normalize_GR_keeps_EL_prefix :
-  exists raw, has_prefix (bs "EL") (clean raw) = false /\
-    snd (normalize (bs "GR") (bs "EL" ++ raw)) <> snd (normalize (bs "GR") raw) /\
-    snd (normalize (bs "EL") (snd (normalize (bs "GR") (bs "EL" ++ raw)))) = snd (normalize (bs "GR") raw).
-Proof. exists (bs "064677095"). vm_compute. repeat split; discriminate. Qed.
 
 (* FR: the SIREN -> VAT number step does not disturb idempotence *)
 Lemma two_digits_are_digits k : 0 <= k < 100 -> forallb is_digit (two_digits k) = true.
@@ -145,7 +138,7 @@ Proof.
 Qed.
 
 (* ---------------- digits are preserved ---------------- *)
-Lemma letters_no_digits : Forall no_digits (map bs ["AE"; "AT"; "BE"; "CA"; "CO"; "DE"; "ES"; "IT"; "NL"; "PL"; "PT"; "GB"; "XI"; "XU"; "EL"; "GR"; "IN"; "CH"; "FR"]%string).
+Lemma letters_no_digits : Forall no_digits (map bs ["AE"; "AT"; "BE"; "BR"; "CA"; "CO"; "DE"; "ES"; "IT"; "NL"; "PL"; "PT"; "GB"; "XI"; "XU"; "EL"; "GR"; "IN"; "CH"; "FR"]%string).
 Proof. repeat constructor. Qed.
 
 Theorem normalize_simple_digits cc raw :
